@@ -793,6 +793,8 @@ def check_unit(ast, unit, registry, wd, variant=None):
         r.reason = 'loop contract silently dropped (no loop_invariant_base/step obligations)'
     elif not r.canaries:
         r.reason = 'no canary in unit'
+    elif r.failed:
+        r.status = 'failed'      # a refuted obligation comes with an execution: not vacuous, whatever the canaries say
     elif any(st == 'SUCCESS' for _, st in r.canaries.values()):
         dead = [d for d, st in r.canaries.values() if st == 'SUCCESS']
         live = [d for d, st in r.canaries.values() if st != 'SUCCESS']
